@@ -27,8 +27,16 @@ def run(mdir, props):
         if r.returncode:
             return mdir, {"apply-failed": r.stderr[-200:]}
         res = {}
+        env = dict(os.environ, VERIF_REPO_ROOT=scratch, VERIF_OUT_DIR=out)
+        if not os.environ.get("VERIF_MATRIX_SLOW"):
+            # one process per tree: the repository model is built once and every property's rules run on it (same verdict code as check.py)
+            r = subprocess.run(["/venv/bin/python", os.path.join(VERIF, "bin", "check_all.py")], capture_output=True, text=True, env=env, cwd=VERIF)
+            line = [l for l in r.stdout.splitlines() if l.startswith("RESULT ")]
+            if line:
+                got = json.loads(line[-1][7:])
+                return mdir, {p: v for p, v in got.items() if p in props}
+            return mdir, {p: [2, ["ANALYSIS-ERROR check_all crashed: " + (r.stderr or r.stdout)[-200:]]] for p in props}
         for p in props:
-            env = dict(os.environ, VERIF_REPO_ROOT=scratch, VERIF_OUT_DIR=out)
             r = subprocess.run(["/venv/bin/python", os.path.join(VERIF, "bin", "check.py"), "--property", p], capture_output=True, text=True, env=env, cwd=VERIF)
             if r.returncode:
                 lines = [l.strip() for l in r.stdout.splitlines() if l.strip().startswith(("violated", "ANALYSIS-ERROR"))]
